@@ -373,14 +373,21 @@ snarf_scale(const char *spec)
 				r = SCALE_HIJRI_DIYANET;
 				break;
 			case 'I': {
-				/* Gent's types */
-				const char *kp = spec + 7U;
-				r = SCALE_HIJRI_IA;
-				r += (echs_scale_t)((*kp == 'V' || *kp++ == 'I') * 2U);
-				r += (echs_scale_t)((*kp == 'V' || *kp++ == 'I') * 2U);
-				r += (echs_scale_t)((*kp == 'C'));
-				r += (echs_scale_t)((*kp == 'V') ? 2U : 0U);
-				r += (echs_scale_t)(*++kp == 'C');
+				/* Gent's types, I to IV, A or C each */
+				const char *kp = spec + 6U;
+				unsigned int typ;
+
+				if (!strncmp(kp, "III", 3U)) {
+					typ = 2U, kp += 3U;
+				} else if (!strncmp(kp, "II", 2U)) {
+					typ = 1U, kp += 2U;
+				} else if (!strncmp(kp, "IV", 2U)) {
+					typ = 3U, kp += 2U;
+				} else {
+					typ = 0U, kp += 1U;
+				}
+				r = (echs_scale_t)
+					(SCALE_HIJRI_IA + 2U * typ + (*kp == 'C'));
 				break;
 			}
 			}
